@@ -351,6 +351,32 @@ def _sorting_rule(model, rep, els):
                  "the default triangle mesh class no longer sorts its cells: "
                  "multi-DOF facets (P3, P4, RT2, BDM1, N2) are traversed in "
                  "opposite directions from the two sides", tri.node.lineno)
+    # every other triangle mesh class hosts the same elements (P3, P4, RT2,
+    # BDM1, N2, Argyris ... live on RefTri): it must sort by default too
+    nsub = 0
+    for c in model.all_classes():
+        if c is tri or not c.path.startswith("skfem/mesh/") or \
+                tri not in c.mro():
+            continue
+        nsub += 1
+        a2 = c.find_attr("sort_t")
+        sorts = a2 is not None and src(a2[1]) == "True"
+        cons = f"{c.name}.sort_t"
+        if sorts:
+            rep.ok(R2, cons, "sorts its cells by default")
+        else:
+            rep.fail(R2, c.path, c.name, cons,
+                     f"{c.name} is a triangle mesh class whose default is "
+                     f"sort_t = {src(a2[1]) if a2 else '?'} (set in "
+                     f"{a2[0].name if a2 else '?'}): a mesh built by its "
+                     f"constructor from unsorted cells (a generator's "
+                     f"counter-clockwise triangles, Mesh.load of triangle6 "
+                     f"data) is never sorted, and the elements with several "
+                     f"DOFs per facet or vertex-order-dependent normals (P3, "
+                     f"P4, RT2, BDM1, N2, HHJ1, Argyris, Morley) are "
+                     f"discontinuous on it", c.node.lineno)
+    if nsub < 2:
+        raise AnalysisError(f"only {nsub} subclasses of MeshTri1 found")
     mcls = model.cls("skfem.mesh.mesh", "Mesh")
     pi = mcls.methods.get("__post_init__")
     if pi is None:
